@@ -630,4 +630,4 @@ def parse_model_answer(ans):
     if pos != len(nums):
         raise common.MachineryError('trailing numbers in driver trace')
     vals = dec_svals([int(x) for x in c.split()])
-    return items, vals, g.strip() == 'ok'
+    return items, vals, g.strip()
